@@ -171,11 +171,11 @@ inductive Desc (s : Schema) : List AstAndDef → List AstAndDef → Prop
   | step {F F' : List AstAndDef} {a : AstAndDef} : a ∈ F → Desc s (subOf s a) F' → Desc s F F'
 
 /-- the rule finds a conflict between two same-key fields of the list -/
-def W (s : Schema) (F : List AstAndDef) : Prop :=
+def WBad (s : Schema) (F : List AstAndDef) : Prop :=
   ¬ F.Pairwise (fun a b => keyOf a = keyOf b → PCb s false a b = false)
 
 /-- ... somewhere below field `a` -/
-def DW (s : Schema) (a : AstAndDef) : Prop := ∃ F', Desc s (subOf s a) F' ∧ W s F'
+def DW (s : Schema) (a : AstAndDef) : Prop := ∃ F', Desc s (subOf s a) F' ∧ WBad s F'
 
 theorem DW_of_mem {s : Schema} {a x : AstAndDef} (hx : x ∈ subOf s a) (h : DW s x) : DW s a := by
   obtain ⟨F', hd, hw⟩ := h
@@ -194,7 +194,7 @@ theorem not_pairwise_append {α : Type} {R : α → α → Prop} {A B : List α}
 theorem within_to_W (s : Schema) (q : AstAndDef → AstAndDef → Bool) (A : List AstAndDef)
     (h : ¬ A.Pairwise (fun a b => keyOf a = keyOf b → q a b = true))
     (hq : ∀ x ∈ A, ∀ y ∈ A, q x y = false → PCb s false x y = true ∨ DW s x ∨ DW s y) :
-    W s A ∨ ∃ x ∈ A, DW s x := by
+    WBad s A ∨ ∃ x ∈ A, DW s x := by
   refine Classical.byContradiction fun hc => h ?_
   have hW : A.Pairwise (fun a b => keyOf a = keyOf b → PCb s false a b = false) :=
     Classical.byContradiction fun hw => hc (Or.inl hw)
@@ -334,7 +334,7 @@ theorem spec_to_pc (s : Schema) (d : Document) (sf : Nat) :
 /-- **spec ⇒ rule on a list**: if FieldsInSetCanMerge fails on `F`, the rule finds a conflict in
     `F` or in one of its descendants -/
 theorem cm_to_W (s : Schema) (d : Document) (sf n D : Nat) (F : List AstAndDef) (hF : ∀ a ∈ F, depOf a ≤ D ∧ ffOf a)
-    (h : fieldsInSetCanMerge s d sf n F = false) : ∃ F', Desc s F F' ∧ W s F' := by
+    (h : fieldsInSetCanMerge s d sf n F = false) : ∃ F', Desc s F F' ∧ WBad s F' := by
   cases n with
   | zero => simp [fieldsInSetCanMerge] at h
   | succ n =>
@@ -348,7 +348,7 @@ theorem cm_to_W (s : Schema) (d : Document) (sf n D : Nat) (F : List AstAndDef) 
 
 /-- **rule ⇒ spec on a list** -/
 theorem W_to_cm (s : Schema) (d : Document) (sf n D : Nat) (F : List AstAndDef) (hF : ∀ a ∈ F, depOf a ≤ D ∧ ffOf a)
-    (hn : D + 2 ≤ n) (h : W s F) : fieldsInSetCanMerge s d sf n F = false := by
+    (hn : D + 2 ≤ n) (h : WBad s F) : fieldsInSetCanMerge s d sf n F = false := by
   obtain ⟨m, rfl⟩ : ∃ m, n = m + 1 := ⟨n - 1, by omega⟩
   rw [cm_succ]
   cases hall : allPairs (pairOk s d sf m) F with
